@@ -105,6 +105,7 @@ DRIVERS = {"C01": C01, "C02": C02}
 # C03: history independence (refinement against a freshly built manager)
 # ---------------------------------------------------------------------------
 from . import oracles as O
+from ..containers import raw_set
 from .world import World, run_traced
 
 
@@ -772,3 +773,237 @@ class C12:
 
 
 DRIVERS["C12"] = C12
+
+
+# ---------------------------------------------------------------------------
+# C11: printed expressions rebuild themselves; dump/load and copy_expr_from "restarts"
+# ---------------------------------------------------------------------------
+import json as _json
+import math as _math
+
+
+def text_roundtrip(prop, world, expr, where):
+    """eval(str(expr)) in a namespace binding the container labels (and math) must rebuild an equal expression."""
+    BaseRef = world.xd.refs.BaseRef
+    txt = str(expr)
+    ns = dict(world.mgr.containers)
+    try:
+        e2 = eval(txt, {"math": _math}, ns)
+    except SimStall:
+        raise
+    except Exception as ex:
+        raise Violation(prop + ".text_eval", "%s: the printed form %s does not evaluate: %s: %s" % (where, txt[:200], type(ex).__name__, ex))
+    if not isinstance(e2, BaseRef):
+        raise Violation(prop + ".text_type", "%s: the printed form %s evaluates to %r, not to an expression" % (where, txt[:200], e2))
+    if str(e2) != txt or not (e2 == expr) or hash(e2) != hash(expr):
+        raise Violation(prop + ".text_equal", "%s: %s re-evaluates to %s (== %s, hash %s)" % (where, txt[:200], str(e2)[:200], e2 == expr,
+                                                                                               "equal" if hash(e2) == hash(expr) else "differs"))
+    try:
+        v1, err1 = expr._get_value(), None
+    except Exception as ex:
+        v1, err1 = None, type(ex).__name__
+    try:
+        v2, err2 = e2._get_value(), None
+    except Exception as ex:
+        v2, err2 = None, type(ex).__name__
+    if err1 != err2 or not same(v1, v2):
+        raise Violation(prop + ".text_value", "%s: %s has value %r (%s), its re-evaluated text %r (%s)" % (where, txt[:200], v1, err1, v2, err2))
+    d1 = sorted(str(x) for x in (expr._get_dependencies() or ()))
+    d2 = sorted(str(x) for x in (e2._get_dependencies() or ()))
+    if d1 != d2:
+        raise Violation(prop + ".text_deps", "%s: dependencies of %s differ after re-evaluation" % (where, txt[:200]))
+
+
+def copy_contents(src_world, dst_world):
+    for loc, v in src_world.contents().items():
+        raw_set(dst_world._container(loc[:-1]), loc[-1][1], v)
+
+
+class C11:
+    prop = "C11"
+
+    @staticmethod
+    def generate(ctx, run):
+        rc = rng_for(ctx.seed, "C11", run, "cfg")
+        wo = {"regf": 0, "unregf": 0, "regk": 0, "unregk": 0, "sete": 50, "inpl": 10, "load": 3}
+        cfg = swarm_config(rc, ctx.tier, weights_over=wo)
+        cfg["g_restricted"] = rc.random() < 0.85
+        if rc.random() < 0.5:
+            cfg["expr_depth"] = rc.choice([3, 4])
+        spec = gen_spec(rng_for(ctx.seed, "C11", run, "spec"), cfg)
+        hg = HistoryGen(rng_for(ctx.seed, "C11", run, "ops"), cfg, spec)
+        ops = hg.history()
+        rm = rng_for(ctx.seed, "C11", run, "markers")
+        dictroots = [i for i, r in enumerate(spec.roots) if r[2] == "dict"]
+
+        def marker(r):
+            k = r.random()
+            if k < 0.5 or not dictroots:
+                return ("dumpload", r.random() < 0.5)
+            ri = r.choice(range(len(spec.roots)))
+            wrap = (ri in dictroots or True) and r.random() < 0.7
+            # a few definitions already present in the destination (kept when overwrite is False)
+            label = spec.roots[ri][0]
+            under = [l for l in spec.leaves if l[0] == label]
+            pre = []
+            for p in r.sample(under, min(len(under), r.randint(0, 2))):
+                keep = hg.eg.rng
+                hg.eg.rng = r
+                try:
+                    pre.append((p, hg.eg.gen(spec.leaf_type[p], 1, True)))
+                finally:
+                    hg.eg.rng = keep
+            return ("copyexpr", ri, bool(wrap), r.random() < 0.6, tuple(pre))
+
+        ops = insert_markers(rm, ops, marker, 1, 3)
+        return {"cfg": cfg, "spec": spec.to_json(), "ops": ops}
+
+    @staticmethod
+    def execute(ctx, case):
+        prop = "C11"
+        xd = ctx.xd
+        spec = Spec.from_json(case["spec"])
+        cfg = case["cfg"]
+        salt = cfg["salt"]
+        ex = Exec(xd, spec, cfg["g_restricted"], salt)
+        mirror = None
+        restarts = 0
+        i = -1
+        try:
+            for i, op in enumerate(case["ops"]):
+                S = ex.world
+                if op[0] == "dumpload":
+                    where = "dump/load restart before op %d" % i
+                    try:
+                        dump = S.mgr.dump()
+                        dump2 = _json.loads(_json.dumps(dump))
+                    except Exception as e:
+                        raise Violation(prop + ".dump_fails", "%s: dump() raised %s: %s" % (where, type(e).__name__, e))
+                    D = World(spec, xd, salt, wrap=S.wrap)
+                    copy_contents(S, D)
+                    tr, exc = run_traced(lambda: D.mgr.load(dump2))
+                    if isinstance(exc, SimStall):
+                        raise exc
+                    if exc is not None:
+                        raise Violation(prop + ".load_fails", "%s: load(dump()) raised %s: %s" % (where, type(exc).__name__, str(exc)[:300]))
+                    restarts += 1
+                    ex.count("fault:restart_dump_load")
+                    compare_expr_pairwise(prop, S.mgr, D.mgr, where)
+                    if [tuple(x) for x in D.mgr.dump()] != [tuple(x) for x in dump]:
+                        raise Violation(prop + ".dump_text", "%s: the loaded manager dumps differently from the original" % where)
+                    d = O.diff_support(O.support(S.mgr), O.support(D.mgr))
+                    if d:
+                        raise Violation(prop + ".index", "%s: index supports of the loaded manager differ: %s" % (where, d))
+                    if op[1]:
+                        mirror = S            # the history continues on the loaded manager, the original mirrors it
+                        ex.world = D
+                    else:
+                        mirror = D
+                    continue
+                if op[0] == "copyexpr":
+                    _, ri, wrap, overwrite, pre = op
+                    if S.wrap:
+                        ex.count("copyexpr_skipped")      # one rebinding per history
+                        continue
+                    label = spec.roots[ri][0]
+                    where = "copy_expr_from(%s%s, overwrite=%s) before op %d" % (label, " -> nested binding" if wrap else "", overwrite, i)
+                    key = "holder%s" % salt
+                    D = World(spec, xd, salt, wrap={label: key} if wrap else None)
+                    copy_contents(S, D)
+                    # model of the destination: current values, the pre-registered definitions, then the copied ones
+                    mD = Model(spec)
+                    mD.val = dict(S.contents())
+                    if wrap:
+                        # below a rebound label every task reads and writes the holder container: the public
+                        # task graph is cyclic by construction (KF-1 territory), the model knows
+                        mD.wrap = {label: key}
+                    gr = cfg["g_restricted"] and not wrap
+                    pairs = tuple((t[1], ex.model.defs[t[1]]) for t in ex.model.order if t[0] == "e" and t[1][0] == label)
+                    if not pairs:
+                        continue
+                    try:
+                        if pre:
+                            model_step(mD, ("load", tuple(pre), True), gr)
+                        info = model_step(mD, ("copyfrom", pairs, overwrite), gr)
+                    except ModelReject:
+                        ex.count("copyexpr_skipped")
+                        continue
+                    for p, a in pre:
+                        D.mgr.register(xd.tasks.ExprTask(D.ref(p), D.build(a)))
+                    bindings = {label: D.rootref[label][key]} if wrap else None
+
+                    def do_copy():
+                        D.mgr.copy_expr_from(S.mgr, label, bindings=bindings, overwrite=overwrite)
+                        D.mgr.run_tasks(D.mgr.find_tasks())
+                    tr, exc = run_traced(do_copy)
+                    if isinstance(exc, SimStall):
+                        raise exc
+                    if exc is not None:
+                        raise Violation(prop + ".copy_fails", "%s raised %s: %s" % (where, type(exc).__name__, str(exc)[:300]))
+                    restarts += 1
+                    ex.count("fault:restart_copy_expr_from" + ("_rebound" if wrap else ""))
+                    expected = sorted((str(D.ref(p)), str(D.build(a))) for p, a in mD.defs.items())
+                    got = O.definitions(D.mgr)
+                    if got != expected:
+                        s1, s2 = set(got), set(expected)
+                        raise Violation(prop + ".copy_definitions", "%s: definitions of the destination: unexpected %s, missing %s"
+                                        % (where, sorted(s1 - s2)[:2], sorted(s2 - s1)[:2]))
+                    tr, exc = run_traced(lambda: D.mgr.verify())
+                    if exc is not None:
+                        raise Violation(prop + ".verify", "%s: verify() of the destination raised %s" % (where, exc))
+                    ex.world = D
+                    ex.model = mD
+                    if wrap:
+                        ex.g_restricted = False
+                    mirror = None
+                    if info.g_cyclic_trig:
+                        ex.count("updates_gcyclic")
+                    try:
+                        ex.check_contents(info.values, where, info, prop)
+                    except Violation as v:
+                        if v.cls.endswith(".gcyclic"):
+                            ex.count("stopped_on_kf1_divergence")
+                            break
+                        raise
+                    continue
+                # ---- ordinary op ------------------------------------------------------------------
+                st = ex.step(op)
+                if st is None:
+                    continue
+                where = "op %d (%s) after %d restart(s)" % (i, op[0], restarts)
+                if st.exc is not None:
+                    raise Violation(prop + ".exception", "%s raised %s: %s" % (where, type(st.exc).__name__, st.exc))
+                if op[0] in ("sete", "inpl") and op[1] in ex.model.defs:
+                    e = ex.world.ref(op[1])._expr
+                    if e is not None:
+                        ex.count("expressions_roundtripped")
+                        text_roundtrip(prop, ex.world, e, where)
+                        text_roundtrip(prop, ex.world, ex.world.ref(op[1]), where)
+                if mirror is not None:
+                    tr2, exc2 = run_traced(lambda: mirror.apply(op))
+                    if exc2 is not None:
+                        raise Violation(prop + ".mirror_exception", "%s: raised %s: %s on the other manager only" % (where, type(exc2).__name__, exc2))
+                    c1, c2 = ex.world.contents(), mirror.contents()
+                    for loc in spec.leaves:
+                        if not same(c1[loc], c2[loc]):
+                            if st.info.g_cyclic_trig:
+                                ex.count("kf1_mirror_divergence")
+                                mirror = None
+                                break
+                            raise Violation(prop + ".mirror", "%s: %s holds %r, in the dumped-and-loaded manager %r"
+                                            % (where, path_str(loc), c1[loc], c2[loc]))
+                    if mirror is not None and O.definitions(ex.world.mgr) != O.definitions(mirror.mgr):
+                        raise Violation(prop + ".mirror_definitions", "%s: definitions of the two managers diverged" % where)
+                try:
+                    ex.check_contents(st.info.values, where, st.info, prop)
+                except Violation as v:
+                    if v.cls.endswith(".gcyclic"):
+                        ex.count("stopped_on_kf1_divergence")
+                        break
+                    raise
+        except Violation as v:
+            return _outcome(ex, v, i, restarts > 0)
+        return _outcome(ex, None, None, restarts > 0, None, digest(sorted(ex.stats.items())))
+
+
+DRIVERS["C11"] = C11
